@@ -1812,7 +1812,7 @@ func c24RunPlans(c *core.Ctx, r *c24Runner, plans []c24Plan) error {
 		if w < 1 {
 			w = 1
 		}
-		o := core.TLCOpts{Spec: "GoSyntax", MCDefs: c24MCDefs(p.Starts), CfgName: p.Name + "-" + c.Tier, Workers: w, OnLine: r.onLine(), Timeout: 14 * time.Minute,
+		o := core.TLCOpts{Spec: "GoSyntax", MCDefs: c24MCDefs(p.Starts), CfgName: p.Name + "-" + c.Tier, Workers: w, OnLine: r.onLine(), Timeout: 40 * time.Minute,
 			Cfg: c24Cfg(c24CfgOpts{Canon: !p.Sim, Rand: p.Sim, Emit: true})}
 		if p.Sim {
 			o.Simulate, o.SimNum, o.SimDepth, o.Seed = true, p.Num, p.Depth, c.Seed
